@@ -384,6 +384,28 @@ PROPS = {
         level_text="Generated search against the definition (union of parallelograms) with exact point-in-parallelogram tests. Exploration only.",
         level_note="trusts oracle.hpp and the parallelogram construction in prop_C19.cpp, g++, rapidcheck",
     ),
+    "C15": dict(
+        bins={"main": dict(tc="gcc", src="prop_C15.cpp", variants=["plain", "z"], shims=["z"])},
+        parts=[
+            dict(name="bool_gp", workers={Q: 6, T: 6}, cases={Q: 20000, T: 600000}),
+            dict(name="bool_deg", workers={Q: 4, T: 4}, cases={Q: 40000, T: 1200000}),
+            dict(name="offset", workers={Q: 4, T: 4}, cases={Q: 4000, T: 120000}),
+            dict(name="rect", workers={Q: 2, T: 2}, cases={Q: 40000, T: 1200000}),
+        ],
+        rule=("the plain build and the USINGZ build (namespace-renamed) run in ONE binary on the same generated input with "
+              "random Z labels on every input vertex, callbacks none / constant / counter-stamping / hash of the four edge end "
+              "points, random DefaultZ: (bool_gp) general-position sets with open subjects, (bool_deg) degenerate and "
+              "rectilinear sets, paths and polytree, all clip types / fill rules / options: x,y of closed and open solutions "
+              "(and tree levels) identical vertex for vertex; on general-position input additionally every solution vertex "
+              "carries an input Z given at its location or the value the (logging) callback assigned there last; (offset) "
+              "polygons, polylines, 1-2-point paths x all join/end types x delta, paths and tree: identical x,y; (rect) "
+              "RectClip and RectClipLines: identical x,y. Non-trivial = a solution vertex "
+              "that is not an input vertex (Z part) / a non-empty result"),
+        assumptions=["which of several coincident input Z values is chosen and how often the callback fires are not asserted"],
+        technique="property-based testing (rapidcheck): differential between two build configurations in one binary + Z provenance oracle with a logging callback",
+        level_text="Generated differential search plain vs USINGZ over every operation family plus a Z-provenance check. Exploration only.",
+        level_note="trusts the shim conversions, g++, rapidcheck",
+    ),
     "C02": dict(
         bins={"main": dict(tc="gcc", src="prop_C02.cpp", variants=["plain"])},
         parts=[
